@@ -18,6 +18,7 @@ Signatures (computed from the structure of the variant, never from messages):
 """
 from __future__ import annotations
 
+import dataclasses
 import itertools
 import json
 
@@ -30,6 +31,9 @@ HEADER = "From Coq Require Import List String Ascii.\nFrom Bardic Require Import
 LEGACY_KINDS = ["<<if>>", "<<elif>>", "<<else>>", "<<endif>>", "<<for>>", "<<endfor>>", "<<py", ">>"]
 INDENT_UNITS = [("2sp", "  "), ("4sp", "    "), ("tab", "\t")]
 JOIN_UNITS = [("2sp", "  "), ("tab", "\t"), ("6sp", "      ")]
+# comment texts: plain, and ones that look like syntax (none may change what the line means)
+COMMENTS = ["note", "note", "TODO: go -> Later", "was n //= 2", "see \\// there", "^tag {x}", "= 3", "@endif",
+            "keep the glue<>", "a // b"]
 
 
 # ------------------------------------------------------------------------------------------------
@@ -117,40 +121,56 @@ def has_colon_header(story, construct):
     return False
 
 
-def variants(story, base: G.Printed):
-    """[(signature, style, label)] - one style dimension at a time."""
+def signature_of(story, style, label):
+    """The signature of a style variant, from the structure of the story and the style only."""
+    fam, _, rest = label.partition(":")
+    if fam == "legacy":
+        c = rest
+        return f"style=legacy,construct={c}" + (",cond=has-colon" if c != "py" and has_colon_header(story, c) else "")
+    if fam == "indent":
+        c = rest.split(":")[0]
+        if c == "join":
+            return "style=indent,construct=join"
+        printed = G.print_story(story, style)
+        inner_py = c != "py" and any(l.kind == "py-body" and l.ctx == "py" and l.indent for l in printed.lines)
+        return f"style=indent,construct={c}" + (",inner=py" if inner_py else "")
+    if fam == "hash":
+        return f"style=hash-comment,position={rest}"
+    if fam == "trailing":
+        kind, _, ctx = rest.rpartition("@")
+        return f"style=trailing-comment,line-kind={kind},context={ctx}"
+    if fam == "combo":
+        fams = sorted({":".join(p.split(":")[:2]) for p in rest.split(",")})
+        return "style=combo,parts=" + "+".join(fams)
+    raise AssertionError(label)
+
+
+def variants(story, base: G.Printed, comment="note"):
+    """[(style, label)] - one style dimension at a time."""
     kinds = G.line_kinds(base)
     kk = {k for k, _ in kinds}
-    present = {"if": "@if" in kk, "for": "@for" in kk, "py": "@py:" in kk, "join": "choice-join" in kk}
+    present = {"if": "@if" in kk, "for": "@for" in kk, "py": "@py:" in kk}
     has_join_block = any(l.ctx == "join" for l in base.lines)
     out = []
     for c in ("if", "for", "py"):
         if present[c]:
-            sig = f"style=legacy,construct={c}" + (",cond=has-colon" if c != "py" and has_colon_header(story, c) else "")
-            out.append((sig, G.Style(legacy=frozenset([c])), f"legacy:{c}"))
+            out.append((G.Style(legacy=frozenset([c])), f"legacy:{c}"))
     for c in ("if", "for", "py"):
         if present[c]:
             for uname, unit in INDENT_UNITS:
-                out.append((None, G.Style(indent=((c, unit),)), f"indent:{c}:{uname}"))
+                out.append((G.Style(indent=((c, unit),)), f"indent:{c}:{uname}"))
     if has_join_block:
         for uname, unit in JOIN_UNITS:
-            out.append(("style=indent,construct=join", G.Style(join_indent=unit), f"indent:join:{uname}"))
+            out.append((G.Style(join_indent=unit), f"indent:join:{uname}"))
     for pos in ("file-top", "top", "if", "for", "join"):
         if pos in ("file-top", "top") or (pos == "join" and has_join_block) or (pos in ("if", "for") and present[pos]):
-            out.append((f"style=hash-comment,position={pos}", G.Style(hash_at=frozenset([pos])), f"hash:{pos}"))
+            out.append((G.Style(hash_at=frozenset([pos]), comment=comment), f"hash:{pos}"))
     for kind, ctx in sorted(kinds):
-        out.append((f"style=trailing-comment,line-kind={kind},context={ctx}",
-                    G.Style(trailing=(kind, ctx)), f"trailing:{kind}@{ctx}"))
+        out.append((G.Style(trailing=(kind, ctx), comment=comment), f"trailing:{kind}@{ctx}"))
     return out
 
 
-def indent_signature(style, printed):
-    c = style.indent[0][0]
-    inner_py = c != "py" and any(l.kind == "py-body" and l.ctx == "py" and l.indent for l in printed.lines)
-    return f"style=indent,construct={c}" + (",inner=py" if inner_py else "")
-
-
-def legacy_trailing_variants(story, base):
+def legacy_trailing_variants(story, base, comment="note"):
     kk = {k for k, _ in G.line_kinds(base)}
     leg = frozenset(c for c, k in (("if", "@if"), ("for", "@for"), ("py", "@py:")) if k in kk)
     if not leg:
@@ -159,14 +179,15 @@ def legacy_trailing_variants(story, base):
     out = []
     for kind, ctx in sorted(G.line_kinds(pl)):
         if kind in LEGACY_KINDS:
-            out.append((f"style=trailing-comment,line-kind={kind},context={ctx}",
-                        G.Style(legacy=leg, trailing=(kind, ctx)), f"trailing:{kind}@{ctx}"))
+            out.append((G.Style(legacy=leg, trailing=(kind, ctx), comment=comment), f"trailing:{kind}@{ctx}"))
     return leg, out
 
 
 class Differential:
     def __init__(self, chk):
         self.chk = chk
+        self.known = set(chk.known_signatures())   # shapes listed as known findings are not built again
+        self.skipped_known = 0
         self.fail = {}          # signature -> list of (story, style, label, outcome)
         self.per_style = {}     # style family -> [evaluated, failed]
         self.compiles = 0
@@ -227,30 +248,33 @@ class Differential:
         passed = []
         nvar = 0
         varied = False
-        todo = variants(story, base)
-        leg, lt = legacy_trailing_variants(story, base)
-        for sig, style, label in todo:
-            if sig is None:
-                sig = indent_signature(style, G.print_story(story, style))
+        comment = rng.choice(COMMENTS)
+        todo = variants(story, base, comment)
+        leg, lt = legacy_trailing_variants(story, base, comment)
+        for style, label in todo:
+            sig = signature_of(story, style, label)
+            if sig in self.known:
+                self.skipped_known += 1
+                continue
             oc = self.outcome(story, style, base_res)
             nvar += 1
             fam = label.split(":")[0]
             self.note(fam, oc is not None)
-            if fam in ("legacy", "indent", "hash", "trailing"):
-                varied = True
+            varied = True
             if oc is None:
                 passed.append((sig, style, label))
             else:
                 self.record(sig, story, style, label, oc)
         # trailing comments on the legacy forms (only when the all-legacy print itself is fine)
+        lt = [(s, l) for s, l in lt if signature_of(story, s, l) not in self.known]
         if lt and self.outcome(story, G.Style(legacy=leg), base_res) is None:
             nvar += 1
-            for sig, style, label in lt:
+            for style, label in lt:
                 oc = self.outcome(story, style, base_res)
                 nvar += 1
                 self.note("trailing-legacy", oc is not None)
                 if oc is not None:
-                    self.record(sig, story, style, label, oc)
+                    self.record(signature_of(story, style, label), story, style, label, oc)
         # combinations of parts that passed on their own
         legs = [s for s in passed if s[2].startswith("legacy:")]
         inds = [s for s in passed if s[2].startswith("indent:") and not s[2].startswith("indent:join")]
@@ -280,20 +304,21 @@ class Differential:
                 continue
             style = G.Style(legacy=legacy, indent=tuple(s[1].indent[0] for s in by_c.values()),
                             hash_at=frozenset(next(iter(s[1].hash_at)) for s in hs),
-                            trailing=tr[1].trailing if tr else None,
+                            trailing=tr[1].trailing if tr else None, comment=comment,
                             join_indent=jn[1].join_indent if jn else "    ")
             oc = self.outcome(story, style, base_res)
             nvar += 1
             self.note("combo", oc is not None)
             if oc is not None:
-                fams = sorted({p.split(":")[0] + ":" + p.split(":")[1] for p in parts})
-                self.record("style=combo,parts=" + "+".join(fams), story, style, "combo:" + ",".join(parts), oc)
+                label = "combo:" + ",".join(parts)
+                self.record(signature_of(story, style, label), story, style, label, oc)
         return base, nvar, varied
 
 
 def style_to_json(st: G.Style):
     return {"legacy": sorted(st.legacy), "indent": [list(x) for x in st.indent], "hash_at": sorted(st.hash_at),
-            "trailing": list(st.trailing) if st.trailing else None, "join_indent": st.join_indent}
+            "trailing": list(st.trailing) if st.trailing else None, "join_indent": st.join_indent,
+            "comment": st.comment}
 
 
 # ------------------------------------------------------------------------------------------------
@@ -406,18 +431,30 @@ def run(tier: str, seed: int) -> int:
     rng = chk.rng
     quick = tier == "quick"
     n_stories, n_combos, n_rand_lines, exh, n_blocks, shrink_budget = \
-        (260, 3, 500, 4, 300, 120) if quick else (2200, 6, 5000, 6, 3000, 300)
+        (260, 3, 500, 4, 300, 300) if quick else (2200, 6, 5000, 6, 3000, 600)
 
     from bardic.compiler.parsing.preprocessing import strip_inline_comment as real_sic
     from bardic.compiler.parsing.indentation import detect_and_strip_indentation as real_dedent
 
     # ---------------- 3. differential oracle over generated stories ----------------
     diff = Differential(chk)
-    dist = collections_counter()
+    dist = {}
+    # known findings: the pinned witness of each is re-run (prints its KNOWN-FINDING line); the generator is told
+    # not to build those shapes again, so that they cannot mask anything else
+    known = chk.known_signatures()
+    for sig, entry in sorted(known.items()):
+        w = entry.get("witness_case") or {}
+        if "baseline_text" in w and "variant_text" in w:
+            b, v = compile_src(w["baseline_text"]), compile_src(w["variant_text"])
+            if b[0] == "ok" and (v[0] != "ok" or v[1] != b[1]):
+                chk.report(sig, entry.get("what", sig), {"kind": "pinned-witness", **w})
+            else:
+                chk.notes.setdefault("known_findings_not_reproduced", []).append(sig)
+    colon_headers = tuple(c for c in ("if", "for") if f"style=legacy,construct={c},cond=has-colon" not in known)
     harvested_lines, harvested_blocks = set(), []
     total_variants = 0
     for i in range(n_stories):
-        story = G.gen_story(rng, depth=2 if quick else rng.choice([2, 2, 3]))
+        story = G.gen_story(rng, depth=2 if quick else rng.choice([2, 2, 3]), colon_headers=colon_headers)
         base, nvar, varied = diff.run_story(story, rng, n_combos)
         total_variants += nvar
         for k, v in G.constructs(story).items():
@@ -439,27 +476,35 @@ def run(tier: str, seed: int) -> int:
                      "regression of the compiler on documented syntax)", {"source": diff.invalid[0][0],
                                                                          "error": diff.invalid[0][1]})
 
-    # one report per signature, with a shrunk witness
+    # one report per signature, with a shrunk witness; the signature reported is that of the shrunk witness
+    # (a story with a colon in a header that fails for another reason shrinks to a witness without the colon)
     failing = {}
-    for sig in sorted(diff.fail):
-        story, style, label, outcome = diff.fail[sig][0]
+    for sig0 in sorted(diff.fail):
+        story, style, label, outcome = diff.fail[sig0][0]
 
         def still(cand, style=style):
             oc = diff.outcome(cand, style)
             return oc is not None and oc != "invalid"
 
-        if sig.startswith("style=baseline"):
-            small, oc = story, outcome
+        if sig0.startswith("style=baseline"):
+            small, oc, sig = story, outcome, sig0
         else:
             small = G.shrink(story, still, budget=shrink_budget)
+            plain = dataclasses.replace(style, comment="note")
+            if style.comment != "note" and still(small, plain):
+                style = plain
             oc = diff.outcome(small, style) or outcome
+            sig = signature_of(small, style, label)
         bt, vt = G.print_story(small, G.BASE).text, G.print_story(small, style).text
-        failing[sig] = {"count": len(diff.fail[sig]), "outcome": oc, "variant": label, "baseline_text": bt,
+        if sig in failing:
+            failing[sig]["count"] += len(diff.fail[sig0])
+            continue
+        failing[sig] = {"count": len(diff.fail[sig0]), "outcome": oc, "variant": label, "baseline_text": bt,
                         "variant_text": vt}
         chk.report(sig, f"{label}: {oc}  [variant source: {vt!r}]",
                    {"kind": "style-variant", "style": style_to_json(style), "label": label, "outcome": oc,
                     "story": G.story_to_json(small), "baseline_text": bt, "variant_text": vt,
-                    "times_seen": len(diff.fail[sig])})
+                    "times_seen": len(diff.fail[sig0])})
 
     # ---------------- 1. correspondence of the helpers ----------------
     lines = gen_sic_lines(rng, n_rand_lines, exh)
@@ -510,6 +555,7 @@ def run(tier: str, seed: int) -> int:
                                  "exhaustive_over": "all strings over {/ \\ = space a} up to length %d" % exh,
                                  "law_evaluations": n_laws}
     chk.notes["baseline_invalid"] = len(diff.invalid)
+    chk.notes["variants_not_built_because_known_finding"] = diff.skipped_known
     chk.notes["not_a_theorem"] = ("parse (print style s) independent of style is decided by the differential oracle only; "
                                   "Props/C17.v proves the helper-level statements (suffix _partial)")
     chk.assumptions = [
@@ -525,5 +571,27 @@ def run(tier: str, seed: int) -> int:
         "make -C /verif/coq && coqc -Q /verif/coq Bardic /verif/coq/Props/C17.v")
 
 
-def collections_counter():
-    return {}
+
+def replay(path: str) -> int:
+    """Re-run the style variants of a replay file against the current tree: prints, per violation, whether the
+    variant still compiles differently from its baseline.  Returns 1 when at least one still does."""
+    C.use_repo()
+    doc = json.load(open(path))
+    still = 0
+    for v in doc.get("violations", []):
+        r = v.get("replay", {})
+        if "baseline_text" in r and "variant_text" in r:
+            b, x = compile_src(r["baseline_text"]), compile_src(r["variant_text"])
+            if b[0] != "ok":
+                state = "baseline no longer compiles"
+            elif x[0] != "ok":
+                state = f"still fails: rejected: {x[1]}: {x[2]}"
+            elif x[1] != b[1]:
+                state = "still fails: compiles differently: " + str(first_difference(b[1], x[1]))
+            else:
+                state = "now identical"
+            still += state.startswith("still")
+            print(f"{v['signature']}: {state}")
+        else:
+            print(f"{v['signature']}: not a style variant ({v.get('what', '')[:120]})")
+    return 1 if still else 0
